@@ -103,6 +103,17 @@ add("C24", "xlsx", "exploration", "runtime monitor: round-trip relation export -
     "Workbooks built by random API histories are exported with save_xlsx_to_writer, imported with load_from_xlsx_bytes, evaluated and compared fact by fact on what the statement lists; a clean-room half avoids the triggers of the listed findings and tolerates nothing.",
     "Trusted base: the snapshot projection S restricted to the listed facts, with a 0.51 px tolerance for widths/heights. Malformed workbooks (C27) are skipped.")
 
+RE_NOTE = ("Trusted base: the reference evaluator RE (harness/src/refeval.rs, ~500 lines, written from the spreadsheet rules; it reads the tree the engine's parser stored). "
+           "RE answers 'no opinion' (counted, with reasons, in the evidence) where spreadsheets disagree or the engine documents a deliberate rule: 0^0 and 0^-n, text arguments and "
+           "errors after the deciding value in AND/OR, non-numeric content behind references returned by IF/IFERROR, numeric look-alike text, scientific notation in number-to-text, "
+           "comparisons decided by the 15-digit rule, hidden ROUND ties. A mismatch whose evaluation went through the trigger of a committed finding is attributed to that finding by tag.")
+add("C06", "formula", "exploration", "runtime monitor: differential comparison of every computed value with an independent reference evaluator over random acyclic workbooks",
+    "Random acyclic workbooks in the core formula language are evaluated by the engine and, recursively in its own order, by RE; every formula cell's value must agree (numbers to 1e-9 relative). Root causes are separated from downstream effects by re-evaluating each disagreeing cell over the engine's own input values.",
+    RE_NOTE)
+add("C05", "formula", "exploration", "runtime monitor: invariant at a hook (every formula cell recomputed by the reference evaluator from the values the engine currently holds) after every step of random edit histories, plus #CIRC! clauses on the static reference graph",
+    "After every step of random UserModel histories (core-language formulas that may form cycles, constants, structural edits, paste, undo/redo) each formula cell must show the value RE computes from the current values of the cells it reads; #CIRC! may only appear on a cycle or next to a cell showing it, and must appear on every cycle whose edges are always evaluated and error-propagating.",
+    RE_NOTE + " Cells on a static reference cycle are judged by the #CIRC! clauses only. Cycle clauses are skipped for workbooks with dynamic references.")
+
 NOT_YET = {}
 
 def main():
